@@ -27,7 +27,7 @@ def _vec(fname, arg):
 
 
 def extra_builds(tier):
-    return [("relchk", None), ("sse41", _vec), ("avx", _vec), ("avx2", _vec)]
+    return [("relchk", None), ("sse41", _vec), ("avx", _vec), ("native", _vec)]
 
 
 
@@ -86,10 +86,16 @@ def shard_hkdf(kind, tier):
     salt, ikm, info = pat(6, 0, 13), pat(5, 0, 22), pat(7, 0, 10)
     prk = macs.hkdf_extract(kind, salt, ikm)
     okm = macs.hkdf_expand(kind, prk, info, 2 * Hn + 1)
-    for dl in (1, B - 1, B, B + 1, 2 * B + 3):
-        for fin in ("", " fin"):
-            cases.append((["hkdf_extract %s %s %s - %s%s" % (kind, P(6, 0, 13), P(5, 0, 22), P(4, 0, dl), fin)], [obs_of(prk)], None))
-            cases.append((["hkdf_expand %s %s %s %d %s%s" % (kind, H(prk), P(7, 0, 10), 2 * Hn + 1, P(4, 0, dl), fin)], [obs_of(okm)], None))
+    for sl in (13, B, B + 1, 2 * B + 7):
+        salt = pat(6, 0, sl)
+        prk = macs.hkdf_extract(kind, salt, ikm)
+        okm = macs.hkdf_expand(kind, prk, info, 2 * Hn + 1)
+        lprk = pat(6, 1, sl) if sl > Hn else prk           # a PRK may be longer than HashLen (also longer than a block)
+        lokm = macs.hkdf_expand(kind, lprk, info, 2 * Hn + 1)
+        for dl in (1, B - 1, B, B + 1, 2 * B + 3):
+            for fin in ("", " fin"):
+                cases.append((["hkdf_extract %s %s %s - %s%s" % (kind, P(6, 0, sl), P(5, 0, 22), P(4, 0, dl), fin)], [obs_of(prk)], None))
+                cases.append((["hkdf_expand %s %s %s %d %s%s" % (kind, H(lprk), P(7, 0, 10), 2 * Hn + 1, P(4, 0, dl), fin)], [obs_of(lokm)], None))
     # a PRK longer than HashLen is legal ("at least HashLen octets")
     long_prk = pat(6, 3, B + 7)
     cases.append((["hkdf_expand %s %s h:01 %d" % (kind, H(long_prk), 2 * Hn + 1)], [obs_of(macs.hkdf_expand(kind, long_prk, b"\x01", 2 * Hn + 1))], None))
@@ -113,6 +119,13 @@ def shard_pbkdf2(kind, tier):
                     exp = macs.pbkdf2(kind, pw, salt, c, dk)
                     cases.append((["pbkdf2 %s %s %s %d %d" % (kind, H(pw), H(salt), c, dk)], [obs_of(exp)], None))
     cases.append((["pbkdf2 %s h:70 h:73 0 %d" % (kind, Hn)], ["PANIC"], None))
+    # more than 65535 output blocks (RFC 8018 allows up to 2^32 - 1)
+    n = 65536 * Hn + 5
+    cases.append((["pbkdf2 %s %s %s 1 %d" % (kind, H(pat(5, 0, 8)), H(pat(6, 0, 8)), n)], [obs_of(macs.pbkdf2(kind, pat(5, 0, 8), pat(6, 0, 8), 1, n))], None))
+    # the Hmac handed in was fed and reset before (a reset object is a fresh one)
+    for pre in (1, B, B + 3):
+        exp = macs.pbkdf2(kind, pat(5, 0, 8), pat(6, 0, 8), 2, Hn + 1)
+        cases.append((["pbkdf2_after_reset %s %s %s 2 %d %s" % (kind, H(pat(5, 0, 8)), H(pat(6, 0, 8)), Hn + 1, P(4, 0, pre))], [obs_of(exp)], None))
     # one Hmac object driving two derivations in a row (scrypt does exactly this)
     for c in (1, 2, 3):
         for dk in (1, Hn, Hn + 1, 2 * Hn + 5):
